@@ -197,3 +197,43 @@ Proof.
   split; [reflexivity|]. split; [reflexivity|]. split; [reflexivity|]. split; [exact HF|].
   split; [lra|]. unfold sec_energy_sum in *. cbn [map nsum s_energy]. numR. lra.
 Qed.
+
+(** ** Livermore subshell selection below thresh_lo: the selected shell is accessible *)
+Lemma lpe_select_lo_spec (e cutoff : R) : forall shells i xs k,
+  lpe_select_lo e cutoff shells i xs = Some k ->
+  (i <= k < i + length shells)%nat /\ fst (nth (k - i) shells (0, 0)) <= e.
+Proof.
+  induction shells as [|[b sx] r IH]; intros i xs k E; [discriminate|].
+  cbn [lpe_select_lo] in E. numR.
+  destruct (Rltb_spec e b) as [Hlt|Hge].
+  - destruct (IH _ _ _ E) as [Hr Hb]. cbn [length]. split; [lia|].
+    replace (k - i)%nat with (S (k - S i)) by lia. exact Hb.
+  - destruct (Rltb_spec cutoff (xs + sx)) as [Hc|Hc].
+    + inversion E; subst. cbn [length]. split; [lia|]. rewrite Nat.sub_diag. cbn. lra.
+    + destruct (IH _ _ _ E) as [Hr Hb]. cbn [length]. split; [lia|].
+      replace (k - i)%nat with (S (k - S i)) by lia. exact Hb.
+Qed.
+
+(** low-energy branch: whatever the tabulated values and the uniform, the photoelectron
+    (if any) has non-negative kinetic energy and E = T_e + deposit; when every binding
+    energy exceeds E nothing is emitted and E is deposited *)
+Theorem livermore_lo_valid (e_inc cutoff : R) shells edir :
+  0 <= e_inc -> Forall (fun s => 0 <= fst s) shells ->
+  let r := livermore_lo e_inc cutoff shells edir in
+  i_action r = Absorbed /\ 0 <= i_deposit r <= e_inc /\
+  Forall (fun x => 0 <= s_energy x) (i_secs r) /\
+  e_inc = sec_energy_sum (i_secs r) + i_deposit r /\
+  (Forall (fun s => e_inc < fst s) shells -> i_secs r = [] /\ i_deposit r = e_inc).
+Proof.
+  intros He Hpos. cbv zeta. unfold livermore_lo.
+  destruct (lpe_select_lo e_inc cutoff shells 0 n0) as [k|] eqn:E.
+  - destruct (lpe_select_lo_spec _ _ _ _ _ _ E) as [[_ Hk] Hb]. rewrite Nat.sub_0_r in Hb. cbn [plus] in Hk.
+    assert (Hb0 : 0 <= fst (nth k shells (0, 0))).
+    { rewrite Forall_forall in Hpos. apply Hpos. apply nth_In. exact Hk. }
+    unfold livermore_final, sec_energy_sum. cbn [i_action i_deposit i_secs map nsum s_energy]. numR.
+    split; [reflexivity|]. split; [lra|]. split; [constructor; [cbn [s_energy]; lra|constructor]|]. split; [ring|].
+    intros Hall. exfalso. rewrite Forall_forall in Hall.
+    assert (e_inc < fst (nth k shells (0, 0))) by (apply Hall; apply nth_In; exact Hk). lra.
+  - unfold livermore_no_shell, sec_energy_sum. cbn [i_action i_deposit i_secs map nsum]. numR.
+    split; [reflexivity|]. split; [lra|]. split; [constructor|]. split; [ring|]. intros _. split; reflexivity.
+Qed.
